@@ -95,6 +95,31 @@ def prune_menu(cols, roles, depth, hist):
     return []
 
 
+UNPIVOT2 = {
+    "blocks_in": None,
+    "blocks_out": {"control": {"k": ["r1", "r2"], "v1": ["x", "x2"], "v2": ["y", "y2"]}, "record_keys": ["g"], "control_table_keys": ["k"]},
+}
+PIVOT2 = {"blocks_in": UNPIVOT2["blocks_out"], "blocks_out": None}
+
+
+def cdata_menu(cols, roles, depth, hist):
+    """record conversions with two value columns, with the block table's columns re-ordered in between"""
+    if depth == 0:
+        return [{"op": "extend", "ops": {"x2": O("+", C("x"), V(10)), "y2": O("+", C("y"), V(10))}}]
+    if depth == 1:
+        return [{"op": "convert_records", "map": UNPIVOT2}]
+    if depth == 2 and {"g", "k", "v1", "v2"} <= set(cols):
+        return [
+            {"op": "select_columns", "columns": ["g", "k", "v2", "v1"]},
+            {"op": "select_columns", "columns": ["v2", "k", "g", "v1"]},
+            {"op": "convert_records", "map": PIVOT2},
+            {"op": "select_rows", "expr": O("==", C("k"), V("r1"))},
+        ]
+    if depth == 3 and {"g", "k", "v1", "v2"} <= set(cols):
+        return [{"op": "convert_records", "map": PIVOT2}]
+    return []
+
+
 def work(hists, cfg, open_ids):
     kd, ke = cfg["kd"], cfg["ke"]
     part = core.Part(open_ids)
@@ -149,6 +174,11 @@ def run(tier):
         st["states"] += len(add3)
         st["transitions"] += s3["transitions"]
         st["confluences"] += s3["confluences"]
+    ex5 = explorer.Explorer(cdata_menu)
+    st5 = ex5.run(4)
+    hists += [s.hist for s in st5 if s.hist["steps"]]
+    st["states"] += len(st5) - 1
+    st["transitions"] += ex5.stats()["transitions"]
     ex4 = explorer.Explorer(prune_menu)
     st4 = ex4.run(3)
     seen_h4 = {H.hist_key(h) for h in hists}
